@@ -83,7 +83,19 @@ async function next_record(it, stream, what) {
         state.settled = true; state.err = e; return state;
     }
     p = Promise.resolve(p).then((r) => { state.settled = true; state.rec = r; }, (e) => { state.settled = true; state.err = e; });
-    if (!stream) { await p; return state; }
+    if (!stream) {
+        // bulk mode: the promise settles once the file has been read - unless the reader died in a callback of its own (an uncaught exception was
+        // recorded meanwhile): then nothing will ever settle it, which is reported as stuck instead of being waited for
+        let noise0 = async_noise.length;
+        while (!state.settled) {
+            await turns(1);
+            if (async_noise.length > noise0 && async_noise.slice(noise0).some((x) => x.kind === 'uncaughtException')) {
+                for (let k = 0; k < 50 && !state.settled; k++) await turns(1);
+                if (!state.settled) { state.stuck = true; state.err = undefined; break; }
+            }
+        }
+        return state;
+    }
     // a record that is already queued is taken at once (microtasks only), as a real consumer does: the consumer can then run far ahead of the producer
     for (let k = 0; k < 3 && !state.settled; k++) await null;
     if (state.settled) return state;
@@ -585,6 +597,27 @@ async function op_query_csv_text(req) {
     return {bytes_hex: Buffer.concat(sink.parts).toString('hex'), warnings: warnings, error: error};
 }
 
+async function op_read_path(req) {
+    // a file prepared by the caller (too big to travel inside the request): bulk reader or fs.createReadStream; the records come back as a count and a digest
+    let stream = req.bulk ? null : fs.createReadStream(req.path, req.hwm ? {highWaterMark: req.hwm} : undefined);
+    if (stream) {
+        let orig_emit = stream.emit; stream.ended = false;
+        stream.emit = function(ev, arg) { if (ev === 'end') stream.ended = true; return orig_emit.apply(this, arguments); };
+    }
+    let out = {};
+    try {
+        let it = new rbql_csv.CSVRecordIterator(stream, req.bulk ? req.path : null, req.encoding, req.delim, req.policy, false, null);
+        let d = await drain_iterator(it, stream, null, 0);
+        let h = require('crypto').createHash('sha1');
+        let bad = null;
+        for (let i = 0; i < d.records.length; i++) { let t = JSON.stringify(d.records[i]); h.update(t); if (bad === null && t.indexOf('\ufffd') >= 0) bad = i + 1; }
+        out = {n_records: d.records.length, sha1: h.digest('hex'), first_record_with_replacement_character: bad, error: d.error, stuck: d.stuck, warnings: it.get_warnings()};
+    } catch (e) {
+        out = {n_records: 0, sha1: null, error: err_info(e), stuck: false, warnings: []};
+    }
+    return out;
+}
+
 async function op_query_csv_files(req) {
     // the file-to-file entry point of the JS package (stream or bulk reading), on paths prepared by the caller
     let warnings = [], error = null;
@@ -620,6 +653,7 @@ async function handle(req) {
         case 'query_unbounded': return await op_query_unbounded(req);
         case 'query_csv_text_batch': { let rs = []; for (let c of req.cases) rs.push(await op_query_csv_text(c)); return {results: rs}; }
         case 'query_csv_files': return await op_query_csv_files(req);
+        case 'read_path': return await op_read_path(req);
         case 'like_cross': return await op_like_cross(req);
         case 'like_literal_batch': return await op_like_literal_batch(req);
         default: return {error: {cls: 'DriverError', msg: 'unknown op ' + req.op}};
